@@ -25,7 +25,13 @@ func verifC08Group(N, maxVal int) {
 		has[j] = vsymBool("hasA")
 		vals[j] = vsymString("a", 1+vsymChoice("alen", maxVal))
 		alphabet(vals[j])
-		ts[j] = vsymUint64("ts")
+		if N >= 3 {
+			// only order and equality of timestamps matter to grouping, sorting and
+			// the limit: 8-bit symbolic instants realise every order of 3 records
+			ts[j] = uint64(vsymByte("ts"))
+		} else {
+			ts[j] = vsymUint64("ts")
+		}
 		for i := 0; i < j; i++ {
 			vsymAssume(ts[i] != ts[j]) // entries are identified by their timestamps
 		}
